@@ -156,3 +156,22 @@ Example C07_ex_signum : signum 8 [0x34; 0x12; 0x80] = [0xff; 0xff; 0xff] /\ sign
 Proof. vm_compute. repeat split; reflexivity. Qed.
 Example C07_ex_is_positive_zero_top : is_positive 8 [0; 1; 0] = true /\ is_positive 8 [0; 0; 0] = false.
 Proof. vm_compute. split; reflexivity. Qed.
+(* ==== glue tie, round 2 (text written by tools/mk_gluetie.py; keep at the END of the file) ==== *)
+(* ---- tie to the source, second round: the non-loop functions (signum, is_positive, is_negative; BInt eq / ne / cmp, BUint ne) REGENERATED from /repo/src on every run
+   (Generated/Glue.v, tools/rs2v_glue.py) are the model's, function by function, for every digit width, digit count,
+   build mode and operand (no well-formedness hypothesis): an edit of the source that changes what one of these
+   functions computes or delegates to breaks this theorem ---- *)
+From Bnum.Model Require Import Digit Core Shift AddSub Mul Div Bits Pow.
+From Bnum.Model Require Ops NumTraits.
+From Bnum.Generated Require Import Glue.
+From Bnum.Proofs Require Import GlueTieCommon GlueTieC07.
+Theorem C07_glue_rs_matches_model :
+  (forall w a, Glue.I_signum w a = signum w a) /\
+  (forall w a, Glue.I_is_positive w a = is_positive w a) /\
+  (forall w a, Glue.I_is_negative w a = is_negative w a) /\
+  (forall w a b, Glue.U_ne w a b = negb (eq_digits a b)) /\
+  (forall w a b, Glue.I_eq w a b = eq_digits a b) /\
+  (forall w a b, Glue.I_ne w a b = negb (eq_digits a b)) /\
+  (forall w a b, Glue.I_cmp w a b = icmp w a b).
+Proof. exact glue_sign_matches_model. Qed.
+Print Assumptions C07_glue_rs_matches_model.
